@@ -3,7 +3,7 @@ SPEC = dict(
     title='Hotter never means slower',
     props_file='Props/C07.v', props_mod='Props.C07',
     props_extra=[('Props/C07Link.v', 'Props.C07Link'), ('Props/C07Steps.v', 'Props.C07Steps')],
-    proof_files=['Proofs/CurveLinksCtrl.v', 'Proofs/CurveLinksMono.v', 'Proofs/StepsFloat.v', 'Proofs/StepsSeg.v', 'Proofs/StepsMono.v', 'Model/Curves.v', 'Proofs/CurveFloat.v', 'Proofs/CurveFn.v', 'Proofs/CurveMono.v', 'Proofs/CurveSteps.v',
+    proof_files=['Proofs/CtrlLinksC07.v', 'Proofs/CurveLinksCtrl.v', 'Proofs/CurveLinksMono.v', 'Proofs/StepsFloat.v', 'Proofs/StepsSeg.v', 'Proofs/StepsMono.v', 'Model/Curves.v', 'Proofs/CurveFloat.v', 'Proofs/CurveFn.v', 'Proofs/CurveMono.v', 'Proofs/CurveSteps.v',
                  'Proofs/CurveLin.v', 'Proofs/CurveLinMono.v',
                  'Drv/CurvesMono.v', 'Drv/CurvesCtrl.v'],
     tie_vo=['Proofs/LeafTie.vo', 'Proofs/ConstsTie_basic.vo', 'Proofs/ConstsTie_clamp.vo', 'Proofs/LeafTie2_functionAgg.vo', 'Proofs/LeafTie2_linearEval.vo', 'Proofs/LeafTie2_clampTarget.vo', 'Proofs/LeafTie2_rescaleTarget.vo', 'Proofs/LeafTie2_DirectCycle.vo'],
